@@ -7,6 +7,7 @@ package main
 
 import (
 	"fmt"
+	"iter"
 	"sort"
 
 	"github.com/welllog/golib/setz"
@@ -69,6 +70,9 @@ type sut struct {
 	// is not side-effect free in every implementation (caches, lazy counters).
 	quiet     int
 	quietCase bool
+	// kept: an All() sequence obtained earlier (possibly from the zero value);
+	// run later, more than once, it must enumerate the members of then
+	kept iter.Seq[uint32]
 }
 
 func (s *sut) note(op byte, x uint32) { s.hash = ev.Mix(s.hash, uint64(op), uint64(x)) }
@@ -230,6 +234,27 @@ func (s *sut) enumerate() bool {
 	if d := firstDiff(got, want); d != "" {
 		s.c.Failf("all-sequence", "All(): %s (members %d, buckets %d)", d, len(want), len(s.m.perHi))
 		return false
+	}
+	if s.kept != nil {
+		for pass := 0; pass < 2; pass++ {
+			got = got[:0]
+			if !s.c.Guard("All(kept)", func() {
+				s.kept(func(x uint32) bool {
+					got = append(got, x)
+					return len(got) <= limit
+				})
+			}) {
+				return false
+			}
+			if d := firstDiff(got, want); d != "" {
+				s.c.Failf("all-kept-sequence", "an All() sequence obtained earlier and run now (pass %d): %s (members %d)", pass+1, d, len(want))
+				return false
+			}
+		}
+		s.c.Add("kept_sequences_rerun", 1)
+	}
+	if s.kept == nil || s.c.Rng.Chance(1, 3) {
+		s.c.Guard("All", func() { s.kept = s.r.All() })
 	}
 	// early termination after k callbacks
 	if len(want) > 0 {
@@ -465,6 +490,80 @@ func thresholdCase(c *ev.Case) {
 	}
 }
 
+// denseCase: two or three buckets are each driven above 4096 members and back
+// down to chosen sizes (2048, 2047, 4096, 1, ...) in an interleaved order, so that
+// one bucket's conversion happens while another one sits at any fill level after
+// having been dense. Many of these cases run in parallel on different bitmaps.
+func denseCase(c *ev.Case) {
+	rng := c.Rng
+	var rb setz.RoaringBitmap
+	s := &sut{c: c, r: &rb, m: newModel()}
+	nb := rng.Range(2, 3)
+	his := rng.Perm(len(hiPool))[:nb]
+	fill := func(b int, upto int) bool {
+		hi := uint32(hiPool[his[b]]) << 16
+		st := uint32(rng.Pick(1, 1, 3, 7))
+		for l := uint32(0); s.m.perHi[uint16(hi>>16)] < upto && l < 65536; l += st {
+			if !s.add(hi | l) {
+				return false
+			}
+		}
+		return true
+	}
+	shrink := func(b int, downto int) bool {
+		hi := uint16(hiPool[his[b]])
+		var mine []uint32
+		for _, x := range s.m.list() {
+			if uint16(x>>16) == hi {
+				mine = append(mine, x)
+			}
+		}
+		p := rng.Perm(len(mine))
+		for _, j := range p {
+			if s.m.perHi[hi] <= downto {
+				break
+			}
+			if !s.remove(mine[j]) {
+				return false
+			}
+		}
+		return true
+	}
+	sizes := []int{2048, 2048, 2047, 2049, 4096, 4095, 1024, 1, 0, 3000}
+	for step := 0; step < rng.Range(6, 12); step++ {
+		b := rng.Intn(nb)
+		n := s.m.perHi[hiPool[his[b]]]
+		ok := true
+		switch {
+		case n <= 4096 && rng.Chance(2, 3):
+			ok = fill(b, rng.Pick(4097, 4098, 4200, 5000))
+		case n > 0:
+			ok = shrink(b, sizes[rng.Intn(len(sizes))])
+		default:
+			ok = fill(b, rng.Pick(1, 10, 2048, 4096))
+		}
+		if !ok || !s.enumerate() {
+			return
+		}
+		for k := 0; k < 30; k++ {
+			l := s.m.list()
+			if len(l) > 0 && !s.contains(l[rng.Intn(len(l))]) {
+				return
+			}
+		}
+	}
+	for _, x := range append([]uint32(nil), s.m.list()...) {
+		if rng.Chance(1, 3) && !s.contains(x) {
+			return
+		}
+	}
+	c.Add("dense_cases", 1)
+	c.Distinct(s.hash)
+	if c.WantSample() {
+		c.Sample(fmt.Sprintf("dense: %d buckets driven above 4096 and back down in turn, %d enumerations compared, final members %d", nb, s.enum, len(s.m.m)))
+	}
+}
+
 // churnCase: buckets become empty and reappear between enumerations.
 func churnCase(c *ev.Case) {
 	rng := c.Rng
@@ -508,11 +607,14 @@ func main() {
 	r.Cases("mix", r.N(3000, 150000), ev.Opt{HangViolation: true}, mixCase)
 	r.Cases("threshold", r.N(60, 3000), ev.Opt{HangViolation: true}, thresholdCase)
 	r.Cases("churn", r.N(3000, 100000), ev.Opt{HangViolation: true}, churnCase)
+	r.Cases("dense", r.N(160, 6000), ev.Opt{HangViolation: true}, denseCase)
 	// the array->bitmap conversion uses an unsafe cast: one pass under -race (which implies checkptr)
 	r.CasesProc("threshold/checkptr", r.N(8, 100), ev.Opt{Bin: "race", Procs: 4}, thresholdCase)
 	r.Require("enumerations", 1000)
 	r.Require("bucket_reached_4097", 10)
 	r.Require("bucket_became_empty", 100)
 	r.Require("quiet_windows_closed", 500)
+	r.Require("kept_sequences_rerun", 1000)
+	r.Require("dense_cases", 100)
 	r.Finish()
 }
